@@ -43,3 +43,45 @@ Theorem C05_bcast_execs_in_range : forall n p o y,
   0 < n -> 0 < p -> 0 <= o < n * p -> In y (bcast_execs n p o) -> 0 <= y < n * p.
 Proof. exact bcast_execs_in_range. Qed.
 Print Assumptions C05_bcast_execs_in_range.
+
+(* ANY PLACEMENT OF THE RANKS ON THE NODES ("every node layout").  A uniform layout is given by the rank [rk a l] with
+   on-node index l on node a and its inverse (nd, lc): block placement is a * p + l, round-robin placement
+   (mpirun --map-by node, srun -m cyclic) is l * n + a.  [placed_layout] is the set of tables ygm::detail::layout builds
+   from the communicator splits for such a placement.  The generated partner loop sends to rank  rk b l  of every other
+   node b of the caller's class - since the repair D14 it looks each partner up in the strided-ranks table; before, it
+   computed the second and later partners as  first + k p^2, which is right for block placement only. *)
+Theorem C05_remote_loop_on_any_placement : forall n p rk nd lc,
+  wf_bcast n p -> placement_ok n p rk nd lc -> forall me, 0 <= me < n * p ->
+  bcast_remote_partners (placed_layout n p rk nd lc me) = Some (remote_partners_placed n p rk nd lc me).
+Proof. exact Gen_bcast_placed. Qed.
+Print Assumptions C05_remote_loop_on_any_placement.
+
+Theorem C05_block_and_round_robin_are_placements : forall n p, 0 < n -> 0 < p ->
+  placement_ok n p (fun a l => a * p + l) (znode p) (zloc p) /\
+  placement_ok n p (fun a l => l * n + a) (fun r => r mod n) (fun r => r / n).
+Proof. intros n p Hn Hp. split; [apply block_placement_ok | apply cyclic_placement_ok]; assumption. Qed.
+Print Assumptions C05_block_and_round_robin_are_placements.
+
+(* the coverage theorem for any placement: origin -> the ranks of its node (the local_ranks table) -> their remote
+   partners -> the other ranks of each partner's node: every rank exactly once, nothing outside the communicator *)
+Theorem C05_bcast_covers_every_rank_once_on_any_placement : forall n p rk nd lc,
+  0 < n -> 0 < p -> placement_ok n p rk nd lc -> forall o x,
+  0 <= o < n * p -> 0 <= x < n * p -> zcount x (bcast_execs_placed n p rk nd lc o) = 1%nat.
+Proof. exact bcast_placed_covers_every_rank_once. Qed.
+Print Assumptions C05_bcast_covers_every_rank_once_on_any_placement.
+
+Theorem C05_bcast_execs_in_range_on_any_placement : forall n p rk nd lc,
+  0 < n -> 0 < p -> placement_ok n p rk nd lc -> forall o y,
+  0 <= o < n * p -> In y (bcast_execs_placed n p rk nd lc o) -> 0 <= y < n * p.
+Proof. exact bcast_placed_execs_in_range. Qed.
+Print Assumptions C05_bcast_execs_in_range_on_any_placement.
+
+(* non-vacuity, and the defect made visible: on 3 nodes x 2 ranks placed round-robin the generated loop of rank 0
+   (node 0, index 0: class of nodes {0, 2}) sends to rank 2 = rk 2 0; the old arithmetic 0 + 2*2 gave rank 4, which is
+   on node 1.  5 x 2: rank 0 serves nodes 2 and 4, i.e. ranks 2 and 4. *)
+Example C05_round_robin_3x2 :
+  bcast_remote_partners (cyclic_layout 3 2 0) = Some [2] /\ bcast_remote_partners (cyclic_layout 5 2 0) = Some [2; 4] /\
+  bcast_remote_partners (cyclic_layout 5 2 6) = Some [5; 7; 9] /\
+  forallb (fun o => forallb (fun x => Nat.eqb (zcount (Z.of_nat x)
+       (bcast_execs_placed 5 2 (fun a l => l * 5 + a) (fun r => r mod 5) (fun r => r / 5) (Z.of_nat o))) 1) (seq 0 10)) (seq 0 10) = true.
+Proof. vm_compute. repeat split; reflexivity. Qed.
